@@ -8,6 +8,7 @@ import Driver.Sim
 import Driver.Mem
 import Driver.FileIO
 import Driver.Det
+import Driver.Util
 
 def dispatch (line : String) : String :=
   match (line.trimAscii.toString.splitOn " ").filter (· ≠ "") with
@@ -37,6 +38,8 @@ def dispatch (line : String) : String :=
   | "rd" :: args => Driver.FileIO.handleRd args
   | "det" :: args => Driver.Det.handle args
   | "detold" :: args => Driver.Det.handleBefore args
+  | "util" :: args => Driver.Util.handle args
+  | "unum" :: args => Driver.Util.handleNum args
   | _ => "bad-op"
 
 partial def loop (h : IO.FS.Stream) (out : IO.FS.Stream) : IO Unit := do
